@@ -385,9 +385,58 @@ pub fn prefilter_name(p: Option<&aho_corasick::automaton::Prefilter>, pats: &[Ve
     format!("{}{}", if rare { "RareBytes" } else { "StartBytes" }, ["One", "Two", "Three"][cand.len() - 1])
 }
 
+/// The first disagreement among the accessors of a `Match`, `Span` or
+/// `Input` handed out by the crate (see `mm` / `via_setters`); turned into a
+/// violation when the monitor's report is written.
+pub static ACCESSOR_MISMATCH: std::sync::Mutex<Option<String>> = std::sync::Mutex::new(None);
+thread_local! {
+    /// (per thread, so that the hot paths of the multi-threaded monitors do not share a counter)
+    pub static ACCESSOR_CHECKS: std::cell::Cell<u64> = const { std::cell::Cell::new(0) };
+}
+
+#[cold]
+fn accessor_mismatch(d: String) {
+    if let Ok(mut g) = ACCESSOR_MISMATCH.lock() {
+        if g.is_none() {
+            *g = Some(d);
+        }
+    }
+}
+
+/// Every monitor reads a reported match through this function: pattern, start
+/// and end are what the oracles compare; the other accessors of `Match` and
+/// of its `Span` are views of the same three numbers and must say the same.
 #[inline]
 pub fn mm(m: Match) -> M {
-    (m.pattern().as_usize(), m.start(), m.end())
+    let (p, s, e) = (m.pattern().as_usize(), m.start(), m.end());
+    ACCESSOR_CHECKS.with(|c| c.set(c.get() + 1));
+    let sp = m.span();
+    let ok = m.range() == (s..e)
+        && sp.start == s
+        && sp.end == e
+        && sp.range() == (s..e)
+        && std::ops::Range::<usize>::from(sp) == (s..e)
+        && aho_corasick::Span::from(s..e) == sp
+        && sp == (s..e)
+        && (s > e || (m.len() == e - s && sp.len() == e - s))
+        && m.is_empty() == (s >= e)
+        && sp.is_empty() == (s >= e)
+        && (s >= e || (sp.contains(s) && sp.contains(e - 1)))
+        && m.pattern().as_u32() as usize == p
+        && m.pattern().as_u64() as usize == p
+        && m.pattern().as_i32() as usize == p
+        && e.checked_add(3).map_or(true, |e3| {
+            let o = m.offset(3);
+            (o.pattern().as_usize(), o.start(), o.end()) == (p, s + 3, e3) && sp.offset(3) == (s + 3..e3)
+        })
+        && (s > e || (aho_corasick::Match::new(m.pattern(), s..e) == m && aho_corasick::Match::must(p, sp) == m));
+    if !ok {
+        accessor_mismatch(format!(
+            "accessors of a reported Match disagree: pattern()/start()/end() = {:?}, range() = {:?}, span() = {:?}, len() = {}, is_empty() = {}, offset(3) = {:?}",
+            (p, s, e), m.range(), sp, m.len(), m.is_empty(), m.offset(3)
+        ));
+    }
+    (p, s, e)
 }
 
 pub fn anch(a: bool) -> Anchored {
@@ -486,7 +535,15 @@ fn via_setters<'h>(input: &Input<'h>, alt: bool) -> Input<'h> {
         match what {
             0 => {
                 if !alt {
-                    i.set_span(sp);
+                    // (the `set_*` methods and the consuming builder-style
+                    // methods are separate code)
+                    if sp.end % 2 == 0 {
+                        i.set_span(sp);
+                    } else {
+                        i = i.span(sp);
+                    }
+                } else if sp.start % 2 == 0 && sp.start % 16 == 8 {
+                    i = i.range(sp.start..sp.end);
                 } else if sp.start % 2 == 0 {
                     // every spelling of a range; open ends mean the haystack's ends;
                     // `RangeBounds` also admits explicit bound pairs, the only way
@@ -522,9 +579,38 @@ fn via_setters<'h>(input: &Input<'h>, alt: bool) -> Input<'h> {
                     i.set_end(sp.end);
                 }
             }
-            1 => i.set_anchored(input.get_anchored()),
-            _ => i.set_earliest(input.get_earliest()),
+            1 => {
+                if (sp.start + sp.end) % 2 == 0 {
+                    i.set_anchored(input.get_anchored())
+                } else {
+                    i = i.anchored(input.get_anchored())
+                }
+            }
+            _ => {
+                if (sp.start + sp.end / 2) % 2 == 0 {
+                    i.set_earliest(input.get_earliest())
+                } else {
+                    i = i.earliest(input.get_earliest())
+                }
+            }
         }
+    }
+    // the getters of the re-configured object say what was set last
+    ACCESSOR_CHECKS.with(|c| c.set(c.get() + 1));
+    let ok = i.start() == sp.start
+        && i.end() == sp.end
+        && i.get_span() == sp
+        && i.get_range() == (sp.start..sp.end)
+        && i.is_done() == (sp.start > sp.end)
+        && i.get_anchored() == input.get_anchored()
+        && i.get_earliest() == input.get_earliest()
+        && i.haystack().len() == len
+        && i.haystack().as_ptr() == input.haystack().as_ptr();
+    if !ok {
+        accessor_mismatch(format!(
+            "getters of a re-configured Input disagree with its setters: wanted span {:?} anchored {:?} earliest {}, object says start() = {}, end() = {}, get_span() = {:?}, get_range() = {:?}, is_done() = {}, get_anchored() = {:?}, get_earliest() = {}",
+            sp, input.get_anchored(), input.get_earliest(), i.start(), i.end(), i.get_span(), i.get_range(), i.is_done(), i.get_anchored(), i.get_earliest()
+        ));
     }
     i
 }
@@ -572,7 +658,25 @@ macro_rules! with_low_ref {
 }
 
 impl S {
+    /// `Input::earliest` is documented to have no effect under standard
+    /// semantics and in overlapping searches (both are "earliest" anyway):
+    /// every other such request is made with the flag set.
+    fn noop_earliest<'h>(&self, input: Input<'h>, overlapping: bool) -> Input<'h> {
+        let sp = input.get_span();
+        if input.get_earliest() || (input.haystack().len() ^ sp.start ^ (sp.end >> 1)) % 2 == 0 {
+            return input;
+        }
+        let standard = overlapping
+            || with_low!(self, a => a.match_kind() == MatchKind::Standard, top t => t.match_kind() == MatchKind::Standard);
+        if standard {
+            input.earliest(true)
+        } else {
+            input
+        }
+    }
+
     pub fn try_find(&self, input: Input<'_>) -> Result<Option<M>, MatchError> {
+        let input = self.noop_earliest(input, false);
         let r = route(&input);
         match self {
             // (a plain whole-haystack request goes in as `&[u8]` / `&str`, the way
@@ -605,6 +709,7 @@ impl S {
         // The iterator is bounded: at most span length + 2 items can ever be
         // legal (every match either consumes a byte or is empty at a new offset).
         let cap = input.get_span().len() + 3;
+        let input = self.noop_earliest(input, false);
         let r = route(&input);
         match self {
             S::Top(t) if r == 2 && supported(t, &input, false) && plain(&input) => {
@@ -633,6 +738,7 @@ impl S {
         input: Input<'_>,
         state: &mut OverlappingState,
     ) -> Result<(), MatchError> {
+        let input = self.noop_earliest(input, true);
         let r = route(&input);
         match self {
             S::Top(t) if r == 2 && supported(t, &input, true) => {
@@ -657,6 +763,7 @@ impl S {
         input: Input<'_>,
         cap: usize,
     ) -> Result<Vec<M>, MatchError> {
+        let input = self.noop_earliest(input, true);
         let r = route(&input);
         match self {
             // (an anchored overlapping *iterator* is rejected whatever the configuration)
